@@ -274,6 +274,12 @@ func (ex *Exec) forkOnCases(st *State, cases []forkCase) {
 			feas = append(feas, cs)
 		}
 	}
+	if traceQueries {
+		fmt.Fprintf(os.Stderr, "FORKCASES cases=%d feasible=%d at %s pc=%d work=%d\n", len(cases), len(feas), ex.posOf(st), len(st.pc), len(ex.work))
+		for _, cs := range feas {
+			fmt.Fprintf(os.Stderr, "   case cond=%s trues=%d falses=%d bind=%v\n", Inline(cs.cond, 4), len(cs.trues), len(cs.falses), cs.bindT != nil)
+		}
+	}
 	for i, cs := range feas {
 		n := st
 		if i < len(feas)-1 {
@@ -315,21 +321,32 @@ func (ex *Exec) keyCases(st *State, mo *MapObj, key Value) []forkCase {
 		if mo.Present[i].IsFalse() {
 			continue
 		}
-		eq := ex.factSimp(st, ex.eqValue(key, mo.Keys[i]))
-		if eq.IsFalse() {
+		// the fact recorded for a case is the whole hit term "entry present and key equal" (hash-consed: mapLookup /
+		// mapUpdate rebuild the identical term and find the fact)
+		hit := ex.factSimp(st, c.And(mo.Present[i], ex.eqValue(key, mo.Keys[i])))
+		if hit.IsFalse() {
 			continue
 		}
-		cs := forkCase{cond: c.And(mo.Present[i], eq)}
+		cs := forkCase{cond: hit}
 		keyT, keyIsTerm := key.(*Term)
 		if kt, ok := mo.Keys[i].(*Term); ok && keyIsTerm && kt.IsConst() && mo.Present[i].IsTrue() {
 			cs.bindT, cs.bindV = keyT, kt.Val
-		} else if mo.Present[i].IsTrue() && !eq.IsConst() {
-			cs.trues = []*Term{eq}
+		} else if !hit.IsConst() {
+			cs.trues = []*Term{hit}
 		}
 		cases = append(cases, cs)
-		none = c.And(none, c.Not(c.And(mo.Present[i], eq)))
-		if mo.Present[i].IsTrue() {
-			eqs = append(eqs, eq)
+		none = c.And(none, c.Not(hit))
+		if !hit.IsConst() {
+			eqs = append(eqs, hit)
+		}
+	}
+	// at most one present entry equals the key (map invariant): in the case "entry i is hit" every other hit term is
+	// false - recorded so that the re-executed look-up does not stumble over them again
+	for k := range cases {
+		for _, h := range eqs {
+			if h != cases[k].cond {
+				cases[k].falses = append(cases[k].falses, h)
+			}
 		}
 	}
 	cases = append(cases, forkCase{cond: none, falses: eqs})
@@ -897,7 +914,12 @@ func (ex *Exec) mapLookup(st *State, m MapV, key Value, zero Value) (Value, *Ter
 	var res Value = zero
 	found := c.False
 	for i := len(mo.Keys) - 1; i >= 0; i-- {
-		hit := c.And(mo.Present[i], ex.factSimp(st, ex.eqValue(key, mo.Keys[i])))
+		if ex.factSimp(st, c.And(mo.Present[i], ex.eqValue(key, mo.Keys[i]))).IsTrue() {
+			return mo.Vals[i], c.True
+		}
+	}
+	for i := len(mo.Keys) - 1; i >= 0; i-- {
+		hit := ex.factSimp(st, c.And(mo.Present[i], ex.eqValue(key, mo.Keys[i])))
 		if hit.IsFalse() {
 			continue
 		}
@@ -928,7 +950,7 @@ func (ex *Exec) mapUpdate(st *State, m MapV, key, val Value) {
 	n := &MapObj{Keys: append([]Value(nil), mo.Keys...), Vals: append([]Value(nil), mo.Vals...), Present: append([]*Term(nil), mo.Present...)}
 	none := c.True
 	for i := range n.Keys {
-		hit := c.And(n.Present[i], ex.factSimp(st, ex.eqValue(key, n.Keys[i])))
+		hit := ex.factSimp(st, c.And(n.Present[i], ex.eqValue(key, n.Keys[i])))
 		if hit.IsFalse() {
 			continue
 		}
@@ -959,7 +981,7 @@ func (ex *Exec) mapDelete(st *State, m MapV, key Value) {
 	c := ex.ctx
 	n := &MapObj{Keys: mo.Keys, Vals: mo.Vals, Present: append([]*Term(nil), mo.Present...)}
 	for i := range n.Keys {
-		hit := ex.eqValue(key, n.Keys[i])
+		hit := ex.factSimp(st, c.And(n.Present[i], ex.eqValue(key, n.Keys[i])))
 		n.Present[i] = c.And(n.Present[i], c.Not(hit))
 	}
 	st.hset(m.Obj, n)
